@@ -14,8 +14,8 @@ Time is an unbounded `Int` of unix nanoseconds (the virtual clock).  Quirks kept
 * the ring of `n` slots covers the *current, partly elapsed* slot plus the `n-1` previous ones, i.e.
   between `(n-1)·d` and `n·d` of real time — not the configured window `W = n·d`;
 * `advance` ignores a clock that went backwards (`elapsed <= 0`);
-* `maybeReset` uses `now.After(resetAt)` — a request at exactly the reset instant is still
-  counted against the *old* hour/day;
+* `maybeReset` resets when `!now.Before(resetAt)` (since /repo 9f59e62; it used to be the strict
+  `now.After(resetAt)`, which charged a request at exactly the reset instant to the *old* hour/day);
 * `Time.Truncate(d)` truncates relative to Go's zero time (year 1), not the unix epoch;
 * the minute limiter is charged even when the hour limiter or the quota then rejects.
 
@@ -56,9 +56,15 @@ def swNew (w slotArg limit now : Int) : SW :=
   let d := if d0 < msNs then msNs else d0
   { d := d, n := n, recent := List.replicate n 0, cur := 0, last := trunc d now, total := 0, limit := limit }
 
+/-- the oldest slot of the ring (`slots[(cur+1) % n]`). -/
+def lastOr0 : List Nat → Nat
+  | [] => 0
+  | [a] => a
+  | _ :: b :: t => lastOr0 (b :: t)
+
 /-- one iteration of the loop in `advance`: move to the next slot, expire what it held. -/
 def shift1 (s : SW) : SW :=
-  { s with cur := (s.cur + 1) % s.n, total := s.total - (s.recent.getLastD 0 : Nat), recent := 0 :: s.recent.dropLast }
+  { s with cur := (s.cur + 1) % s.n, total := s.total - (lastOr0 s.recent : Nat), recent := 0 :: s.recent.dropLast }
 
 def shiftN : Nat → SW → SW
   | 0, s => s
@@ -80,11 +86,11 @@ def bump : List Nat → List Nat
 /-- `s.limit > 0 && s.total >= s.limit` -/
 def swFull (s : SW) : Bool := decide (0 < s.limit) && decide (s.limit ≤ s.total)
 
-def admit (s : SW) : SW := { s with recent := bump s.recent, total := s.total + 1 }
+def countIn (s : SW) : SW := { s with recent := bump s.recent, total := s.total + 1 }
 
 /-- `Allow()` -/
 def swAllow (s : SW) (now : Int) : SW × Bool :=
-  if swFull (advance s now) then (advance s now, false) else (admit (advance s now), true)
+  if swFull (advance s now) then (advance s now, false) else (countIn (advance s now), true)
 
 /-- `Remaining()` -/
 def swRemaining (s : SW) (now : Int) : SW × Int :=
@@ -126,12 +132,12 @@ def qtNew (mh md now : Int) : QT :=
     maxH := mh, maxD := md }
 
 def resetHour (q : QT) (now : Int) : QT :=
-  if q.hourResetAt < now then { q with h := 0, hourResetAt := trunc hourNs now + hourNs } else q
+  if q.hourResetAt ≤ now then { q with h := 0, hourResetAt := trunc hourNs now + hourNs } else q
 
 def resetDay (q : QT) (now : Int) : QT :=
-  if q.dayResetAt < now then { q with dc := 0, dayResetAt := trunc dayNs now + dayNs } else q
+  if q.dayResetAt ≤ now then { q with dc := 0, dayResetAt := trunc dayNs now + dayNs } else q
 
-/-- `maybeReset()` — note the strict `now.After(resetAt)`. -/
+/-- `maybeReset()` — `!now.Before(resetAt)`: the reset instant itself belongs to the new hour/day. -/
 def maybeReset (q : QT) (now : Int) : QT := resetDay (resetHour q now) now
 
 def qtVerdict (q : QT) : QV :=
@@ -181,7 +187,7 @@ def Mgr.put (m : Mgr) (t : Int) (k : Tok) : Mgr :=
 def Mgr.policy (m : Mgr) (t : Int) : Policy := ((m.get t).pol).getD m.defaults
 
 inductive Verdict
-  | admit
+  | admitted
   | rlMinute (retry : Int)
   | rlHour (retry : Int)
   | quotaHour
@@ -230,7 +236,7 @@ def handleTok (k : Tok) (p : Policy) (now : Int) : Tok × Verdict :=
   | none =>
     match (checkQuota (checkRateLimit k p now).1 p now).2 with
     | some v => ((checkQuota (checkRateLimit k p now).1 p now).1, v)
-    | none => ((checkQuota (checkRateLimit k p now).1 p now).1, .admit)
+    | none => ((checkQuota (checkRateLimit k p now).1 p now).1, .admitted)
 
 def query (m : Mgr) (t : Int) (now : Int) : Mgr × Verdict :=
   let r := handleTok (m.get t) (m.policy t) now
